@@ -551,3 +551,19 @@ Theorem C01_cutoff_needed_refuted :
   /\ List.length (tokenize long_url) = TOKENS_MAX.
 Proof. exact cutoff_needed_refuted. Qed.
 Print Assumptions C01_cutoff_needed_refuted.
+
+(* ------------------------------------------------------------------ translator tie: the control
+   structure of NetworkFilter::get_tokens as extracted on this run (Generated.TokensGen),
+   interpreted over the model's rule record, IS Net_Model.get_tokens — the function every token
+   guarantee above is about *)
+From Adb Require Struct_Tokens_Proofs.
+Theorem C01_src_get_tokens_is_model : forall (h : str -> N) (f : rule),
+  Struct_Tokens_Proofs.interp h f = get_tokens h f.
+Proof. exact Struct_Tokens_Proofs.interp_is_model. Qed.
+Print Assumptions C01_src_get_tokens_is_model.
+
+Theorem C01_src_tokenizer_flags : forall f : rule,
+  Struct_Tokens_Proofs.teval f false TokensGen.skip_first = negb (is_left_anchor f)
+  /\ Struct_Tokens_Proofs.teval f false TokensGen.skip_last = negb (is_right_anchor f).
+Proof. exact Struct_Tokens_Proofs.skip_flags. Qed.
+Print Assumptions C01_src_tokenizer_flags.
